@@ -16,9 +16,9 @@ UniverseCore ==
     <<"step", "ok">>, <<"pause", "ok">>, <<"restart", "ok">>, <<"threads", "ok">>, <<"query", "ok">>,
     <<"terminate", "ok">>, <<"termthreads", "empty">> }
 
-\* the smallest universe in which defect (e) shows (needs 5 requests)
-UniverseE == { <<"launch", "ok">>, <<"restart", "ok">>, <<"continue", "ok">>, <<"confdone", "ok">>,
-               <<"terminate", "ok">>, <<"threads", "ok">> }
+\* the smallest universe in which defect (e) shows (needs 6 requests)
+UniverseE == { <<"launch", "ok">>, <<"setbp", "ok">>, <<"confdone", "ok">>, <<"continue", "ok">>,
+               <<"terminate", "ok">> }
 
 \* G mode (simulation): print requests, writer order and outcome of every finished behaviour
 Beh == [reqs  |-> [i \in 1..Len(reqlog) |-> <<reqlog[i].cls, reqlog[i].shape>>],
